@@ -282,7 +282,7 @@ def freqStepCode (n g : Nat) (wl fno : α) : α :=
 def freqStepSpec (n : Nat) (wl fno : α) : α :=
   Num.ofNat 1000 / (Num.ofNat n * (wl * fno))
 
-/-- `freq = np.arange(grid_size // 2) * dx` -/
+/-- `freq = np.arange(grid_size - grid_size // 2) * dx` (entry `k` of the axis) -/
 def freqAxis (step : α) (k : Nat) : α := Num.ofNat k * step
 
 /-- `_get_psf_units`: extent of an image of `pixels` samples, µm -/
